@@ -8,7 +8,7 @@ out=seeded/RESULTS.md
 [ -n "$*" ] || printf '| seeded change | property | outcome of ./check (quick) with the change applied |\n|---|---|---|\n' > $out
 for id in $ids; do
   p=$(echo "$id" | cut -d- -f1)
-  git -C /repo apply "seeded/$id/patch.diff" || { echo "$id: patch does not apply"; continue; }
+  git -C /repo apply "/verif/seeded/$id/patch.diff" || { echo "$id: patch does not apply"; continue; }
   res=$(./check "$p" 2>&1); rc=$?
   git -C /repo checkout -- .
   line=$(echo "$res" | grep -E "^VIOLATION" | head -1)
